@@ -27,7 +27,8 @@ from cflib.crazyflie.mem.i2c_element import I2CElement
 from cflib.crazyflie.mem.ow_element import OWElement
 from cflib.crazyflie.mem.memory_element import MemoryElement
 
-FUNCTIONS = ['cflib.crazyflie.mem.i2c_element:I2CElement.new_data', 'cflib.crazyflie.mem.i2c_element:I2CElement.write_data',
+FUNCTIONS = ['cflib.localization.lighthouse_config_manager:LighthouseConfigWriter.write_and_store_config', 'cflib.localization.lighthouse_config_manager:LighthouseConfigWriter._next',
+             'cflib.crazyflie.mem.i2c_element:I2CElement.new_data', 'cflib.crazyflie.mem.i2c_element:I2CElement.write_data',
              'cflib.crazyflie.mem.i2c_element:I2CElement.update', 'cflib.crazyflie.mem.i2c_element:I2CElement._checksum256',
              'cflib.crazyflie.mem.i2c_element:I2CElement.write_done',
              'cflib.crazyflie.mem.ow_element:OWElement.new_data', 'cflib.crazyflie.mem.ow_element:OWElement.write_data',
@@ -577,6 +578,83 @@ def h_lh_helper(sym):
         sym.goal('unsupported-in-subset')
 
 
+def h_lh_config_writer(sym):
+    """LighthouseConfigWriter.write_and_store_config on a device that already holds VALID geometry / calibration for some base
+    stations: afterwards the device holds exactly the given configuration -- the given base stations with their content, every
+    other base station of the system not valid ("all other base stations will be invalidated") -- all of them are persisted in
+    one request, and the callback comes once, after the device confirmed the persist."""
+    from cflib.localization.lighthouse_config_manager import LighthouseConfigWriter
+    n = sym.B['n']
+    what = sym.B['what']
+    cand = list(range(n))
+    given = [i for i in cand if sbool(sym, f'bs{i}_given')]
+    before = [i for i in cand if sbool(sym, f'bs{i}_valid_before')]
+    base = 0 if what == 'geo' else 0x1000
+    h = Mem()
+    m = LighthouseMemory(id=4, type=MemoryElement.TYPE_LH, size=0x2000, mem_handler=h)
+    for i in before:        # what an earlier configuration left on the device
+        old = struct.pack('<12f?', *([9.5 + i] * 12 + [True])) if what == 'geo' else struct.pack('<14fL?', *([7.25 + i] * 14 + [77, True]))
+        h.preload(base + i * 0x100, list(old))
+
+    class Loc:
+        LH_PERSIST_DATA = 2
+
+        def __init__(self):
+            from cflib.utils.callbacks import Caller
+            self.receivedLocationPacket = Caller()
+            self.persist = []
+
+        def send_lh_persist_data_packet(self, geos, calibs):
+            self.persist.append((list(geos), list(calibs)))
+    cf = _CfWithLh(m)
+    cf.loc = Loc()
+    objs = {}
+    for k, i in enumerate(given):
+        if what == 'geo':
+            vals = [c + k for c in _CONSTS[:12]]
+            if k == 0:
+                vals[0] = f32(sym, 'x')
+            objs[i] = mk_geo(vals)
+        else:
+            vals = [c + k for c in _CONSTS[:14]]
+            if k == 0:
+                vals[0] = f32(sym, 'x')
+            objs[i] = mk_calib(vals)
+            objs[i].uid = 1000 + i
+        objs[i].valid = True
+    w = LighthouseConfigWriter(cf, nr_of_base_stations=n)
+    done = Calls()
+    if what == 'geo':
+        w.write_and_store_config(done, geos=dict(objs))
+    else:
+        w.write_and_store_config(done, calibs=dict(objs))
+    k = 0
+    while h.pending:
+        k += 1
+        assert k <= 3 * n + 4, 'writer keeps issuing requests'
+        h.serve()
+    assert done.calls == [], 'completion reported before the device confirmed that the data were persisted'
+    assert cf.loc.persist == [(cand, []) if what == 'geo' else ([], cand)], 'every base station of the system is persisted, in one request'
+
+    class P:
+        type = Loc.LH_PERSIST_DATA
+        data = True
+    cf.loc.receivedLocationPacket.call(P())
+    assert len(done.calls) == 1 and done.calls[0][0], 'completion callback: once, success'
+    size = 49 if what == 'geo' else 61
+    for i in cand:
+        page = h.image[base + i * 0x100: base + i * 0x100 + size]
+        if i in objs:
+            ref = struct.pack('<12f?', *(geo_floats(objs[i]) + [True])) if what == 'geo' else \
+                struct.pack('<14fL?', *(calib_floats(objs[i]) + [objs[i].uid, True]))
+            assert all_equal(page, ref), ('the device does not hold the given data for base station', i)
+        else:
+            assert len(page) == size and page[size - 1] == 0, ('a base station that is not in the configuration is still valid on the device', i)
+            if i in before:
+                sym.goal('old-base-station-invalidated')
+    sym.goal('configured' if given else 'all-invalidated')
+
+
 # ================================================================ YAML files (lossless in-memory store instead of PyYAML)
 import cflib.localization.lighthouse_config_manager as lcm      # noqa: E402
 import cflib.localization.param_io as pio                       # noqa: E402
@@ -1008,6 +1086,10 @@ HARNESSES = [
             note='LighthouseMemHelper: any subset of base stations 0, 1, 3, 15 (three of them in the quick tier), each valid or not valid, on a device serving the first 2, the first 4, all 16, or all but 1 and 2'),
     Harness('lh_helper[calib]', h_lh_helper, quick=dict(what='calib', cand=(1, 3, 15)), thorough=dict(what='calib'), timeout=(400, 1200), smt_timeout=1.5,
             goals=('subset-written', 'empty-subset', 'unsupported-in-subset', 'not-valid-object-written')),
+    Harness('lh_config_writer[geo]', h_lh_config_writer, quick=dict(what='geo', n=2), thorough=dict(what='geo', n=3), timeout=(300, 900), smt_timeout=1.5,
+            goals=('configured', 'all-invalidated', 'old-base-station-invalidated')),
+    Harness('lh_config_writer[calib]', h_lh_config_writer, quick=dict(what='calib', n=2), thorough=dict(what='calib', n=3), timeout=(300, 900), smt_timeout=1.5,
+            goals=('configured', 'all-invalidated', 'old-base-station-invalidated')),
     Harness('lh_file', h_lh_file, quick=dict(geo_ids=(0, 1, 15), calib_ids=(0, 15)),
             thorough=dict(geo_ids=(0, 1, 7, 15), calib_ids=(0, 8, 15)), goals=('both', 'invalid-skipped', 'empty'), timeout=(250, 1500)),
     Harness('lh_file_envelope', h_lh_file_envelope, goals=('accepted', 'refused')),
